@@ -636,7 +636,7 @@ generated table, direct parameters, a placement without repetition in range, and
 `gate [] (placed qubits) M`; and with the `c-` prefix on any non-empty control list in range (`defaultCond`) it parses
 as the statement `gate control (placed qubits) M`. -/
 theorem cq_text_lib_lines {F : Type} (N : Num F) (S : CQ1.NumSem α P) (val : F → P) (RB : ReadsBack (α := α) N S val)
-    (nq : Nat) (nz : List α → Bool) (name : String) (ps : List (Param F)) (bits : List Nat)
+    (nq : Nat) (nz : List α → Bool) (name : String) (ps : List (CQ.Param F)) (bits : List Nat)
     (hs : libSound name ps = true) (hl : bits.length = libBits name) (hn : bits.Nodup) (hb : ∀ b ∈ bits, b < nq)
     (t : Text) (h : libCQasm Gen.cqGates N (qNames nq) name ps bits = .ok t)
     (apps : List (List Nat × LMat α)) (happs : exactDenot (α := α) name (ps.map fun p => val p.value) = some apps) :
